@@ -1,7 +1,7 @@
 (* EnvOk.v -- the facts about the implementation's data (compiled automata,
    reply constants) that the theorems rely on. [env_ok] is a boolean, decided by
    kernel computation on the freshly generated data on every run (Instance.v). *)
-From MS Require Export Proto Spec.RefHttp Spec.HttpTbl.
+From MS Require Export Proto Spec.C18 Spec.RefHttp Spec.HttpTbl.
 
 Definition nonempty (b : bytes) : bool := negb (length b =? 0)%nat.
 
@@ -17,4 +17,6 @@ Definition env_ok (E : env) : bool :=
   (* C13 / C11 (HTTP): verb matcher against the method trie, the nine "VERB /"
      signatures in the protocol matcher, the 401 template around the Date value *)
   http_tbl_ok (e_http_tbl E) && proto_http_ok (e_proto_tbl E) PROTO_HTTP &&
-  http_tpl_ok (e_http_pre E) (e_http_post E).
+  http_tpl_ok (e_http_pre E) (e_http_post E) &&
+  (* C18: the SSH server identification and the Gh0st frame *)
+  bytes_eqb (e_ssh_banner E) S_SERVER_ID && ghost_wf (e_ghost E).
